@@ -136,3 +136,26 @@ Print Assumptions C01_compressed_refused.
 Print Assumptions C01_robust.
 Print Assumptions C01_no_overread.
 Print Assumptions C01_fragmentation.
+
+(* ============================================================================================== *)
+(* TRANSLATION TIE (C03 phase 3): over Gen/C03gen.v, regenerated from nbt/decode.go by tools/gotrans/c03.go on every run *)
+From GoMC Require Import Model.C03_syntax Gen.C03gen Proofs.C03_tie Proofs.C03_tie_top.
+
+(* the case constants of `switch tagType` in Decoder.unmarshal are the 13 ids of the format *)
+Theorem C01_case_tags_translated :
+  map Z.to_N unmarshal_case_tags = [0; 1; 2; 3; 5; 4; 6; 8; 7; 11; 12; 9; 10].
+Proof. exact unmarshal_case_tags_ok. Qed.
+(* rawRead as translated statement by statement consumes exactly a well-formed value, at any nesting within the budget *)
+Theorem C01_rawRead_exact_translated : forall t, wf t -> forall fuel dep rest, (length (payload t) < fuel)%nat -> depth t <= dep ->
+  run_flat (gen_rawRead fuel dep (tag_id t)) (payload t ++ rest) = FOk tt rest.
+Proof. exact rawRead_exact. Qed.
+(* no bare Read in the translated readers and in the interpretation of the acceptance table: no read-ahead *)
+Theorem C01_robust_translated :
+  (forall fuel dep id, robust (gen_rawRead fuel dep id)) /\
+  (forall e, In e unmarshal_scalar_table ->
+     (forall t, t <> GAny -> t <> GMapAny -> robust (interp_entry e t)) /\ robust (interp_entry_any e)).
+Proof. split; [exact rawRead_robust|exact scalar_table_robust]. Qed.
+
+Print Assumptions C01_case_tags_translated.
+Print Assumptions C01_rawRead_exact_translated.
+Print Assumptions C01_robust_translated.
